@@ -1,12 +1,14 @@
 CFG = dict(
     props_file='Props/C22.v',
     coq_targets=['Checks/C22.vo', 'Props/C22.vo'],
-    level_text='Theorems C22_depth_has_complete_proof_partial / C22_level_has_complete_proof_partial: for EVERY program, database and model, a tuple whose reference '
+    level_text='Theorems C22_depth_has_complete_proof_partial / C22_level_has_complete_proof_partial / C22_depth_is_least_proof_height_partial: for EVERY program, database and model, a tuple whose reference '
                'derivation depth is d (first bottom-up level containing it, negation evaluated against the model) has a complete valid proof of height <= d+1 '
-               '(induction over levels, no bound). This is the specification side of the property: what the oracle demands of `.why` can always be met. '
+               '(induction over levels, no bound), and conversely every strict valid proof of height h puts its conclusion at depth <= h-1, so the reference depth is exactly the least proof height. '
+               'This is the specification side of the property: what the oracle demands of `.why` can always be met. '
                'The implementation side is checked per run: every answer of every derived relation whose reference depth is within the configured limit must come '
                'back with a tree whose root is not the Truncated fallback and that has no Derived-source fallback leaf.',
-    level_note='PARTIAL: no theorem about the backward chainer (it is not modelled); completeness of the real chainer is established only on the explored inputs. '
+    level_note='PARTIAL: no COMPLETENESS theorem about the backward chainer model (its soundness is C21_sound; the model is compared with build_proof_tree on every library-path case); '
+               'completeness of the real chainer is established only on the explored inputs. '
                'Known class 1 (finding): a clause in which a comparison or negated atom precedes the atom that binds its variables is skipped by the chainer, so '
                'answers derived through it get the Derived-source fallback.',
     technique='Coq proof (existence of complete derivations within the reference depth) + per-run oracle on the real `.why` / build_proof_tree output',
